@@ -7,6 +7,8 @@ verus! {
 //@ include prelude/core.rs
 //@ include prelude/std_specs.rs
 //@ include prelude/panic.rs
+//@ include prelude/highbits.rs
+//@ include prelude/bitval.rs
 pub mod u {
 use super::*;
 
@@ -161,6 +163,56 @@ fn inv_mod_alt(b: BigDigit) -> /*+*/(r: /*-*/BigDigit/*+*/)/*-*/
     r/*-*/
 }
 //@ end
+
+
+/// congruence modulo m over the integers
+pub open spec fn congm(x: int, y: int, m: int) -> bool { exists|k: int| x == y + #[trigger] (k * m) }
+
+/// changing only the digits in [i, i+n) changes the value by B^i times the change of that window
+pub proof fn lemma_val_window(w: Seq<u64>, w2: Seq<u64>, i: nat, n: nat)
+    requires w.len() == w2.len(), i + n <= w.len(), forall|j: int| 0 <= j < w.len() && !(i <= j < i + n) ==> w[j] == w2[j]
+    ensures val(w2) + pw(i) * val(w.subrange(i as int, (i + n) as int)) == val(w) + pw(i) * val(w2.subrange(i as int, (i + n) as int))
+{
+    let l = w.len();
+    let lo = w.subrange(0, i as int); let mid = w.subrange(i as int, (i + n) as int); let hi = w.subrange((i + n) as int, l as int);
+    let mid2 = w2.subrange(i as int, (i + n) as int);
+    assert(w =~= (lo + mid) + hi);
+    assert(w2 =~= (lo + mid2) + hi);
+    lemma_val_concat(lo + mid, hi); lemma_val_concat(lo + mid2, hi);
+    lemma_val_concat(lo, mid); lemma_val_concat(lo, mid2);
+}
+
+pub proof fn lemma_val_low_digit(s: Seq<u64>)
+    requires s.len() >= 1
+    ensures val(s) % B() == s[0] as nat
+{
+    lemma_digit_split(s, 0);
+    assert(pw(0) * ((s[0] as nat) + B() * val(s.subrange(1, s.len() as int))) == (s[0] as nat) + B() * val(s.subrange(1, s.len() as int))) by (nonlinear_arith) requires pw(0) == 1;
+    let h = val(s.subrange(1, s.len() as int));
+    vstd::arithmetic::div_mod::lemma_mod_multiples_vanish(h as int, s[0] as int, B() as int);
+    vstd::arithmetic::div_mod::lemma_small_mod(s[0] as nat, B());
+    assert(B() * h == h * B()) by (nonlinear_arith);
+}
+
+/// the Montgomery multiplier t = z0 * k makes the low digit vanish: (z0 + m0 * t) % B == 0 when k * m0 == -1 (mod B)
+pub proof fn lemma_monty_low(z0: u64, m0: u64, k: u64, t: u64)
+    requires ((k as int) * (m0 as int) + 1) % BI() == 0, t as int == ((z0 as int) * (k as int)) % BI()
+    ensures ((z0 as int) + (m0 as int) * (t as int)) % BI() == 0
+{
+    let m = BI();
+    // m0 * t == m0 * z0 * k == z0 * (k*m0) == -z0 (mod B)
+    vstd::arithmetic::div_mod::lemma_mul_mod_noop_general(m0 as int, (z0 as int) * (k as int), m);
+    assert((m0 as int) * ((z0 as int) * (k as int)) == (z0 as int) * ((k as int) * (m0 as int))) by (nonlinear_arith);
+    let km = (k as int) * (m0 as int);
+    vstd::arithmetic::div_mod::lemma_fundamental_div_mod(km + 1, m);
+    let q = (km + 1) / m;
+    assert((z0 as int) + (z0 as int) * km == (z0 as int) * q * m) by (nonlinear_arith) requires km + 1 == m * q;
+    vstd::arithmetic::div_mod::lemma_mod_multiples_basic((z0 as int) * q, m);
+    vstd::arithmetic::div_mod::lemma_add_mod_noop(z0 as int, (m0 as int) * (t as int), m);
+    vstd::arithmetic::div_mod::lemma_add_mod_noop(z0 as int, (z0 as int) * km, m);
+    vstd::arithmetic::div_mod::lemma_mod_twice((z0 as int) * (k as int), m);
+    vstd::arithmetic::div_mod::lemma_mul_mod_noop_general(m0 as int, t as int, m);
+}
 
 //@ extract src/biguint/monty.rs :: fn add_ww props=C05
 fn add_ww(x: BigDigit, y: BigDigit, c: BigDigit) -> /*+*/(r: /*-*/(BigDigit, BigDigit)/*+*/)/*-*/
@@ -358,6 +410,211 @@ fn sub_vv(z: &mut [BigDigit], x: &[BigDigit], y: &[BigDigit]) -> /*+*/(r: /*-*/B
     }
 
     c
+}
+//@ end
+
+impl BigUint {
+//@ extract src/biguint.rs :: impl BigUint :: const ZERO rules=R9,R13 label=BigUint_ZERO
+    exec const ZERO: Self /*+*/ensures Self::ZERO.data@.len() == 0 /*-*/{ BigUint { data: Vec::new() } }
+//@ end
+}
+
+/// one row of the Montgomery product: value bookkeeping for z += x*y_i + m*t, then the carry digit at position n+i
+pub proof fn lemma_monty_row(v0: nat, v3: nat, pi: nat, pn: nat, xv: nat, yi: nat, mv: nat, t: nat, c: nat, c2: nat, c3: nat, cy: nat, c1: nat,
+    w0: nat, w1: nat, w2: nat, lhs: nat, uu: nat, ypre: nat)
+    requires
+        // window updates
+        w1 + c2 * pn == w0 + xv * yi, w2 + c3 * pn == w1 + mv * t,
+        // whole vector before / after the two window updates and after storing cy at position n+i (weight pi*pn)
+        v3 + pi * w0 == v0 + pi * w2 + cy * (pi * pn),
+        c + c2 + c3 == cy + c1 * B(),
+        // invariant before
+        v0 + c * (pi * pn) == xv * ypre + uu * mv,
+    ensures v3 + c1 * (B() * (pi * pn)) == xv * (ypre + yi * pi) + (uu + t * pi) * mv
+{
+    assert(pi * w2 == pi * w0 + pi * (xv * yi) + pi * (mv * t) - (c2 + c3) * (pi * pn)) by (nonlinear_arith)
+        requires w1 + c2 * pn == w0 + xv * yi, w2 + c3 * pn == w1 + mv * t;
+    assert((cy + c1 * B()) * (pi * pn) == cy * (pi * pn) + c1 * (B() * (pi * pn))) by (nonlinear_arith);
+    assert((c + c2 + c3) * (pi * pn) == c * (pi * pn) + (c2 + c3) * (pi * pn)) by (nonlinear_arith);
+    assert(xv * (ypre + yi * pi) == xv * ypre + pi * (xv * yi)) by (nonlinear_arith);
+    assert((uu + t * pi) * mv == uu * mv + pi * (mv * t)) by (nonlinear_arith);
+}
+
+//@ extract src/biguint/monty.rs :: fn montgomery rules=R0,R11,R7z props=C05,C14
+fn montgomery(x: &BigUint, y: &BigUint, m: &BigUint, k: BigDigit, n: usize) -> /*+*/(res: /*-*/BigUint/*+*/)/*-*/
+//+{
+    requires
+        !mp() ==> x.data@.len() == n && y.data@.len() == n && m.data@.len() == n,
+        n >= 1, n < 0x100_0000_0000_0000,
+        m.data@.len() == n ==> ((k as int) * (m.data@[0] as int) + 1) % BI() == 0,
+    ensures
+        mp() ==> x.data@.len() == n && y.data@.len() == n && m.data@.len() == n,
+        res.data@.len() == n,
+        congm((val(res.data@) * pw(n as nat)) as int, (val(x.data@) * val(y.data@)) as int, val(m.data@) as int),
+//+}
+{
+    __assert(x.data.len() == n && y.data.len() == n && m.data.len() == n);
+
+    let mut z = BigUint::ZERO;
+    z.data.resize(n * 2, 0);
+
+    let mut c: BigDigit = 0;
+//+{
+    let ghost xs = x.data@; let ghost ys = y.data@; let ghost ms = m.data@;
+    let ghost xv = val(xs); let ghost mv = val(ms);
+    let ghost nn = n as nat;
+    let ghost uu: nat = 0;
+    proof {
+        lemma_valp_zeros(z.data@, 2 * nn);
+        assert(xv * 0 == 0 && 0 * mv == 0 && 0 * pw(nn) == 0) by (nonlinear_arith);
+        lemma_pw_add(nn, 0);
+    }
+//+}
+    for i in /*+*/it: /*-*/0..n
+//+{
+        invariant
+            xs == x.data@, ys == y.data@, ms == m.data@, xs.len() == nn, ys.len() == nn, ms.len() == nn, nn == n, nn >= 1, n < 0x100_0000_0000_0000,
+            xv == val(xs), mv == val(ms), ((k as int) * (ms[0] as int) + 1) % BI() == 0,
+            z.data@.len() == 2 * nn, c <= 1, it.index@ <= nn, it.seq().len() == nn,
+            forall|j: int| 0 <= j < nn ==> it.seq()[j] == j,
+            forall|j: int| 0 <= j < it.index@ ==> z.data@[j] == 0,
+            forall|j: int| nn + it.index@ <= j < 2 * nn ==> z.data@[j] == 0,
+            val(z.data@) + (c as nat) * (pw(it.index@ as nat) * pw(nn)) == xv * valp(ys, it.index@ as nat) + uu * mv,
+            uu < pw(it.index@ as nat),
+//+}
+    {
+//+{
+        let ghost iv = i as nat;
+        let ghost z0 = z.data@;
+        let ghost win0 = z0.subrange(i as int, (n + i) as int);
+        let ghost c_0 = c;
+//+}
+        let c2 = add_mul_vvw(&mut z.data.as_mut_slice()[i..n + i], &x.data, y.data[i]);
+//+{
+        let ghost z1 = z.data@;
+        let ghost win1 = z1.subrange(i as int, (n + i) as int);
+//+}
+        let t = z.data[i].wrapping_mul(k);
+        let c3 = add_mul_vvw(&mut z.data.as_mut_slice()[i..n + i], &m.data, t);
+//+{
+        let ghost z2 = z.data@;
+        let ghost win2 = z2.subrange(i as int, (n + i) as int);
+//+}
+        let cx = c.wrapping_add(c2);
+        let cy = cx.wrapping_add(c3);
+        z.data[n + i] = cy;
+//+{
+        let ghost z3 = z.data@;
+//+}
+        if cx < c2 || cy < c3 {
+            c = 1;
+        } else {
+            c = 0;
+        }
+//+{
+        proof {
+            let pi = pw(iv); let pn = pw(nn);
+            // the low digit of the window vanishes
+            lemma_val_low_digit(win1); lemma_val_low_digit(win2); lemma_val_low_digit(ms);
+            lemma_monty_low(win1[0], ms[0], k, t);
+            // val(win2) % B == (val(win1) + mv * t) % B == (win1[0] + m0 * t) % B == 0
+            vstd::arithmetic::div_mod::lemma_mod_multiples_vanish(-(c3 as int) * ((pw((nn - 1) as nat)) as int), (val(win1) + mv * (t as nat)) as int, BI());
+            assert(pw(nn) == B() * pw((nn - 1) as nat));
+            assert(val(win2) as int == (-(c3 as int) * (pw((nn - 1) as nat) as int)) * BI() + ((val(win1) + mv * (t as nat)) as int)) by (nonlinear_arith)
+                requires val(win2) + (c3 as nat) * pn == val(win1) + mv * (t as nat), pn == B() * pw((nn - 1) as nat), BI() == B() as int;
+            vstd::arithmetic::div_mod::lemma_add_mod_noop(val(win1) as int, (mv * (t as nat)) as int, BI());
+            vstd::arithmetic::div_mod::lemma_mul_mod_noop_general(mv as int, t as int, BI());
+            vstd::arithmetic::div_mod::lemma_add_mod_noop(win1[0] as int, (ms[0] as int) * (t as int), BI());
+            vstd::arithmetic::div_mod::lemma_mul_mod_noop_general(ms[0] as int, t as int, BI());
+            assert(win2[0] == 0);
+            // value bookkeeping
+            lemma_val_window(z0, z1, iv, nn);
+            lemma_val_window(z1, z2, iv, nn);
+            lemma_val_update_(z2, (n + i) as int, cy);
+            assert(z3 =~= z2.update((n + i) as int, cy));
+            lemma_pw_add(iv, nn);
+            assert(0 * pw(nn + iv) == 0) by (nonlinear_arith);
+            let c1 = c as nat;
+            assert((c_0 as nat) + (c2 as nat) + (c3 as nat) == (cy as nat) + c1 * B());
+            assert(valp(ys, iv + 1) == valp(ys, iv) + (ys[i as int] as nat) * pi);
+            assert((cy as nat) * pw(nn + iv) == (cy as nat) * (pi * pn));
+            lemma_monty_row(val(z0), val(z3), pi, pn, xv, ys[i as int] as nat, mv, t as nat, c_0 as nat, c2 as nat, c3 as nat, cy as nat, c1,
+                val(win0), val(win1), val(win2), 0, uu, valp(ys, iv));
+            assert(pw(iv + 1) == B() * pi);
+            assert(B() * (pi * pn) == (B() * pi) * pn) by (nonlinear_arith);
+            assert((t as nat) * pi + uu < B() * pi) by (nonlinear_arith) requires uu < pi, (t as nat) + 1 <= B();
+            uu = uu + (t as nat) * pi;
+        }
+//+}
+    }
+
+//+{
+    let ghost zf = z.data@;
+    let ghost hi = zf.subrange(n as int, 2 * n as int);
+    let ghost lo = zf.subrange(0, n as int);
+    proof {
+        assert(zf =~= lo + hi);
+        lemma_val_concat(lo, hi);
+        lemma_valp_zeros(lo, nn);
+        lemma_valp_bound(xs, nn); lemma_valp_bound(ys, nn); lemma_valp_bound(ms, nn); lemma_valp_bound(hi, nn);
+        assert(valp(ys, nn) == val(ys));
+    }
+//+}
+    if c == 0 {
+        z.data = z.data[n..].to_vec();
+//+{
+        proof {
+            assert(z.data@ =~= hi);
+            let pn = pw(nn);
+            assert(pn * pn == pn * pn);
+            assert((val(hi) * pn) as int == (xv * val(ys)) as int + #[trigger] ((uu as int) * (mv as int))) by (nonlinear_arith)
+                requires pn * val(hi) + 0 * (pn * pn) == xv * val(ys) + uu * mv;
+        }
+//+}
+    } else {
+//+{
+        let ghost f1: Seq<u64> = Seq::empty();
+//+}
+        {
+            let (first, second) = z.data.split_at_mut(n);
+//+{
+            proof {
+                assert(second@ =~= hi);
+            }
+//+}
+            /*+*/let bw = /*-*/sub_vv(first, second, &m.data);
+//+{
+            proof {
+                let pn = pw(nn);
+                lemma_pw_pos(nn);
+                // T = val(hi) + pn with T * pn == x*y + U*m < pn*pn + pn*m, hence val(hi) < m and the subtraction borrows
+                assert(val(hi) < mv) by (nonlinear_arith)
+                    requires pn * val(hi) + 1 * (pn * pn) == xv * val(ys) + uu * mv, xv < pn, val(ys) < pn, uu < pn, mv < pn, pn > 0;
+                if bw == 0 { assert(0 * pn == 0) by (nonlinear_arith); assert(false); }
+                assert(1 * pn == pn) by (nonlinear_arith);
+                assert(val(first@) + mv == val(hi) + pn);
+                f1 = first@;
+            }
+//+}
+        }
+//+{
+        let ghost fin = z.data@.subrange(0, n as int);
+        proof { assert(fin =~= f1); }
+//+}
+        z.data = z.data[..n].to_vec();
+//+{
+        proof {
+            assert(z.data@ =~= fin);
+            let pn = pw(nn);
+            let kk = (uu as int) - (pn as int);
+            assert((val(fin) * pn) as int == (xv * val(ys)) as int + kk * (mv as int)) by (nonlinear_arith)
+                requires val(fin) + mv == val(hi) + pn, pn * val(hi) + 1 * (pn * pn) == xv * val(ys) + uu * mv, kk == (uu as int) - (pn as int);
+            assert((val(fin) * pn) as int == (xv * val(ys)) as int + #[trigger] (kk * (mv as int)));
+        }
+//+}
+    }
+
+    z
 }
 //@ end
 
